@@ -486,6 +486,7 @@ func run(c *mc.Ctx, r *mc.Result) {
 		add(func(r *mc.Result) { runBodies(c, r, "siblings", c02.SiblingPool(), 3, 2) })
 		add(func(r *mc.Result) { runBodies(c, r, "nested", c02.NestPool(), 2, 2) })
 		add(func(r *mc.Result) { runBodies(c, r, "hosts", c02.HostPool(), 2, 2) })
+		add(func(r *mc.Result) { runBodies(c, r, "methods", c02.MethodPool(), 2, 2) })
 	} else {
 		add(func(r *mc.Result) { runPool(c, r, "prefixes", c02.PoolFor(true), 3, 3, 400000) })
 		add(func(r *mc.Result) { runPool(c, r, "methods", c02.MethodPool(), 4, 4, 100000) })
@@ -497,6 +498,7 @@ func run(c *mc.Ctx, r *mc.Result) {
 		add(func(r *mc.Result) { runBodies(c, r, "siblings", c02.SiblingPool(), 4, 2) })
 		add(func(r *mc.Result) { runBodies(c, r, "nested", c02.NestPool(), 3, 2) })
 		add(func(r *mc.Result) { runBodies(c, r, "hosts", c02.HostPool(), 3, 2) })
+		add(func(r *mc.Result) { runBodies(c, r, "methods", c02.MethodPool(), 3, 2) })
 		add(func(r *mc.Result) { runBodies(c, r, "nested", c02.NestPool(), 2, 3) })
 		add(func(r *mc.Result) { runBodies(c, r, "siblings", c02.SiblingPool(), 2, 3) })
 	}
